@@ -16,7 +16,7 @@ EXPLANATION = (
     "credit-take function returns the closed result on the true edge of a closed-flag load that dominates the "
     "credit take; data-before-EOF order follows from the single FIFO (S1).")
 EXPLANATION_ADDED = '(R5) during teardown the frames still buffered in the source are dispatched before the flow table is drained; R1 accepts only non-empty tests of byte containers (not of the number of slices).'
-EXPLANATION_ADDED2 = " (R6) the C03 rule set as a precondition of 'EOF only after all bytes'; R4 also requires poll_shutdown to reach the Finish-sending call."
+EXPLANATION_ADDED2 = " (R6) the C03 rule set as a precondition of 'EOF only after all bytes'; R4 also requires poll_shutdown to reach the Finish-sending call. (R7) = C08.R10: a refused write is reported as BrokenPipe by every write entry point."
 EXPLANATION = EXPLANATION + " Added while testing against seeded changes: " + EXPLANATION_ADDED + EXPLANATION_ADDED2
 ASSUMPTIONS = ["tokio mpsc: a receiver sees None only after all senders are dropped and the queue is drained",
                "frames travel in one FIFO (S1, checked under C02)"]
@@ -228,4 +228,6 @@ def check(facts, rep, tier, cfg):
         k = v["key"].split("/", 1)[1]
         if k in cells or (k.startswith("unmatched/") and ("op:Finish" in k or "op:Push" in k)):
             rep.bad("C05.R3", k, v["where"], v["msg"])
-
+    # ---- a write on a stream that is closed for writing fails with BrokenPipe in every entry point
+    rep.rule("C05.R7", "every io-level write entry point maps the refusal of the credit take (None: closed for writing) to Err(BrokenPipe), never to Ok(n)")
+    check_refusal_is_broken_pipe(facts, rep, crate, "C05.R7")
